@@ -34,7 +34,7 @@ OWNERS = {
     "prtpy/partitioning/karmarkar_karp_sy.py": ["C08", "C02", "C01", "C18"],
     "prtpy/partitioning/multifit.py": ["C08", "C01", "C18"],
     "prtpy/partitioning/recursive_number_partitioning_sy.py": ["C02", "C01", "C18"],
-    "prtpy/partitioning/roundrobin.py": ["C14", "C01"],
+    "prtpy/partitioning/roundrobin.py": ["C14", "C08", "C01"],
     "prtpy/partitioning/sequential_number_partitioning_sy.py": ["C02", "C01", "C18"],
     "prtpy/packing/best_fit.py": ["C14", "C09", "C03", "C19"],
     "prtpy/packing/first_fit.py": ["C14", "C09", "C03", "C19", "C08"],
